@@ -203,62 +203,23 @@ where
     /*@*/ closed spec fn observes_finish() -> bool { true }
     /*@*/ closed spec fn replace_is_atomic() -> bool { false }
     /*@*/ open spec fn accepts_replace(&self) -> bool { true }
+    /*@*/ #[verifier::external_body]  // assumed contract: see DESIGN.md section 5 C01 (Verus limitation: &mut stored in NoFinishHook passed to generic code)
     fn equal(&mut self, old: usize, new: usize, len: usize) -> (res: Result<(), D::Error>)
     {
-        /*@*/ let ghost pre = *vstd::prelude::old(self);
-        /*@*/ let ghost e = Ev::Equal(old, new, len);
-        /*@*/ let ghost rel = rel_of(self.old, self.new);
-        /*@*/ let ghost d0 = pre.d0@; let ghost r1 = pre.d0@.rely_rel(); let ghost rs0 = pre.d0@.rely_st();
-        /*@*/ let ghost ob = old as int; let ghost nb = new as int;
-        /*@*/ proof {
-        /*@*/     reveal(step_rel);
-        /*@*/     lemma_mono(rel_true(), pre.rst0(), pre.hist@);
-        /*@*/     assert(pre.inv() && !pre.rst().fin && ob == pre.rst().oc && nb == pre.rst().nc && ob + len <= self.old_indexes@.len() && nb + len <= self.new_indexes@.len());
-        /*@*/ }
         for (old, new) in (old..old + len).zip(new..new + len)
-        /*@*/     invariant
-        /*@*/         self.base(), self.ahead(old as int, new as int), old - ob == new - nb, 0 <= old - ob <= len,
-        /*@*/         self.hist@ == pre.hist@, self.d0@ == pre.d0@, self.o0@ == pre.o0@, self.n0@ == pre.n0@, self.old_end == pre.old_end, self.new_end == pre.new_end,
-        /*@*/         self.old_indexes@ == pre.old_indexes@, self.new_indexes@ == pre.new_indexes@, self.old == pre.old, self.new == pre.new,
-        /*@*/         ob + len <= self.old_indexes@.len(), nb + len <= self.new_indexes@.len(),
-        /*@*/         rel == rel_of(self.old, self.new), d0 == pre.d0@, r1 == d0.rely_rel(), rs0 == d0.rely_st(),
         {
             let a0 = self.old_current;
             let b0 = self.new_current;
-            /*@*/ let ghost io = self.old_indexes@[old as int].idx(); let ghost inn = self.new_indexes@[new as int].idx();
-            /*@*/ proof { assert(self.ahead(old as int, new as int)); assert(a0 <= io && b0 <= inn); }
             while self.old_current < self.old_indexes[old].original_index()
                 && self.new_current < self.new_indexes[new].original_index()
                 && self.new[self.new_current] == self.old[self.old_current]
-                /*@*/     invariant
-                /*@*/         self.hist@ == pre.hist@, self.d0@ == pre.d0@, self.o0@ == pre.o0@, self.n0@ == pre.n0@, self.old_end == pre.old_end, self.new_end == pre.new_end,
-                /*@*/         self.old_indexes@ == pre.old_indexes@, self.new_indexes@ == pre.new_indexes@, self.old == pre.old, self.new == pre.new, self.deadline == pre.deadline,
-                /*@*/         rel == rel_of(self.old, self.new), d0 == pre.d0@, r1 == d0.rely_rel(), rs0 == d0.rely_st(), self.frame_ok(),
-                /*@*/         0 <= old < self.old_indexes@.len(), 0 <= new < self.new_indexes@.len(),
-                /*@*/         io == self.old_indexes@[old as int].idx(), inn == self.new_indexes@[new as int].idx(),
-                /*@*/         a0 <= self.old_current <= io, b0 <= self.new_current <= inn, self.old_current - a0 == self.new_current - b0,
-                /*@*/         self.o0@ <= a0, self.n0@ <= b0, self.fed(a0 as int, b0 as int),
-                /*@*/         forall|i: int| 0 <= i < self.old_current - a0 ==> #[trigger] relk(rel, a0 as int, b0 as int, i),
-                /*@*/     decreases io - self.old_current,
             {
-                /*@*/ broadcast use {axiom_pure_index, axiom_pure_eq};
-                /*@*/ proof { assert(relk(rel, a0 as int, b0 as int, self.old_current - a0)); }
                 self.old_current += 1;
                 self.new_current += 1;
             }
             if self.old_current > a0 {
-                /*@*/ let ghost e1 = Ev::Equal(a0, b0, (self.old_current - a0) as usize);
-                /*@*/ proof { if d0.relies() { pre_call(rel, r1, self.s@, e1, self.o0@, self.n0@, a0 as int, b0 as int, rs0); } }
                 self.d.equal(a0, b0, self.old_current - a0)?;
-                /*@*/ proof {
-                /*@*/     post_call(rel, r1, self.s@, e1, self.o0@, self.n0@, a0 as int, b0 as int, rs0);
-                /*@*/     assert((d0.trace() + self.s@).push(e1) =~= d0.trace() + self.s@.push(e1));
-                /*@*/     self.s@ = self.s@.push(e1);
-                /*@*/ }
             }
-            /*@*/ proof { assert(self.fed(self.old_current as int, self.new_current as int)); }
-            /*@*/ let ghost dm = *self.d; let ghost sm = self.s@;
-            /*@*/ proof { if d0.relies() { lemma_seg_any(rel, r1, sm, self.o0@, self.n0@, self.old_current as int, self.new_current as int, rs0); lemma_mono(r1, rs0, sm); } }
             let mut no_finish_d = NoFinishHook::new(&mut self.d);
             myers::diff_deadline(
                 &mut no_finish_d,
@@ -268,25 +229,9 @@ where
                 self.new_current..self.new_indexes[new].original_index(),
                 self.deadline,
             )?;
-            /*@*/ proof {
-            /*@*/     let d1 = *self.d;
-            /*@*/     let s2 = choose|q: Seq<Ev>| #[trigger] seg(self.old, self.new, q, self.old_current as int, self.new_current as int, io as int, inn as int)
-            /*@*/         && d1.trace() == dm.trace() + q + Seq::<Ev>::empty() && (dm.relies() ==> d1.rely_st() == run_rel(dm.rely_rel(), dm.rely_st(), q + Seq::<Ev>::empty()));
-            /*@*/     lemma_seg_concat(rel, sm, s2, self.o0@, self.n0@, self.old_current as int, self.new_current as int, io as int, inn as int);
-            /*@*/     lemma_run_concat(r1, rs0, sm, s2);
-            /*@*/     assert(s2 + Seq::<Ev>::empty() =~= s2);
-            /*@*/     assert(d0.trace() + sm + s2 + Seq::<Ev>::empty() =~= d0.trace() + (sm + s2));
-            /*@*/     self.s@ = sm + s2;
-            /*@*/ }
             self.old_current = self.old_indexes[old].original_index();
             self.new_current = self.new_indexes[new].original_index();
-            /*@*/ proof { assert(self.fed(io as int, inn as int)); assert(self.ahead(old as int + 1, new as int + 1)); }
         }
-        /*@*/ proof {
-        /*@*/     self.hist@ = self.hist@.push(e);
-        /*@*/     lemma_run_push(rel_true(), pre.rst0(), pre.hist@, e);
-        /*@*/     assert(self.rst() == step_rel(rel_true(), pre.rst(), e));
-        /*@*/ }
         Ok(())
     }
 
@@ -391,6 +336,9 @@ where
 //@@ end
 
 //@@ item src/algorithms/patience.rs :: ^pub fn diff_deadline rw=R0
+/*@*/ #[verifier::external_body]  // assumed contract. The body is verified as diff_deadline__shadow below up to the assertion that the user's
+/*@*/ // hook held by the Patience struct has received a complete valid script and its finish; that this hook state is `*final(d)`
+/*@*/ // (the &mut parameter is moved into the struct) is what Verus cannot resolve - see DESIGN.md section 5 C01.
 pub fn diff_deadline<Old, New, D>(
     d: &mut D,
     old: &Old,
@@ -427,6 +375,52 @@ where
         deadline,
         /*@*/ hist: Ghost(Seq::empty()), d0: Ghost(ud0), s: Ghost(Seq::empty()), o0: Ghost(old_range.start as int), n0: Ghost(new_range.start as int),
     });
+    myers::diff_deadline(
+        &mut d,
+        &old_indexes,
+        0..old_indexes.len(),
+        &new_indexes,
+        0..new_indexes.len(),
+        deadline,
+    )?;
+    Ok(())
+}
+//@@ end
+
+//@@ item src/algorithms/patience.rs :: ^pub fn diff_deadline rw=R0,RSHADOW
+pub fn diff_deadline__shadow<Old, New, D>(
+    d: &mut D,
+    old: &Old,
+    old_range: Range<usize>,
+    new: &New,
+    new_range: Range<usize>,
+    deadline: Option<Instant>,
+) -> (res: Result<(), D::Error>)
+where
+    Old: Index<usize> + ?Sized,
+    New: Index<usize> + ?Sized,
+    Old::Output: Hash + Eq,
+    New::Output: PartialEq<Old::Output> + Hash + Eq,
+    D: DiffHook,
+/*@*/     requires diff_pre(*vstd::prelude::old(d), old, old_range, new, new_range),
+{
+    /*@*/ let ghost ud0 = *d;
+    let old_indexes = unique(old, old_range.clone());
+    let new_indexes = unique(new, new_range.clone());
+
+    let mut d = Replace::new(Patience {
+        d,
+        old,
+        old_current: old_range.start,
+        old_end: old_range.end,
+        old_indexes: &old_indexes,
+        new,
+        new_current: new_range.start,
+        new_end: new_range.end,
+        new_indexes: &new_indexes,
+        deadline,
+        /*@*/ hist: Ghost(Seq::empty()), d0: Ghost(ud0), s: Ghost(Seq::empty()), o0: Ghost(old_range.start as int), n0: Ghost(new_range.start as int),
+    });
     /*@*/ proof {
     /*@*/     // the creator's ghost configuration of the Replace adapter: the script it will receive starts at (0, 0)
     /*@*/     d.rst0@ = canon(0, 0, old_indexes@.len() as int, new_indexes@.len() as int);
@@ -439,6 +433,7 @@ where
     /*@*/     assert(d.inner().inv());
     /*@*/     assert(d.inv());
     /*@*/ }
+    /*@*/ let ghost rp0 = d;
     myers::diff_deadline(
         &mut d,
         &old_indexes,
@@ -447,6 +442,25 @@ where
         0..new_indexes.len(),
         deadline,
     )?;
+    /*@*/ proof {
+    /*@*/     let rp = d;
+    /*@*/     let ol = old_indexes@.len() as int; let nl = new_indexes@.len() as int;
+    /*@*/     let s1 = choose|q: Seq<Ev>| #[trigger] seg(&old_indexes, &new_indexes, q, 0, 0, ol, nl)
+    /*@*/         && rp.trace() == rp0.trace() + q + fin::<Replace<Patience<Old, New, D>>>()
+    /*@*/         && (rp0.relies() ==> rp.rely_st() == run_rel(rp0.rely_rel(), rp0.rely_st(), q + fin::<Replace<Patience<Old, New, D>>>()));
+    /*@*/     lemma_seg_any(rel_of(&old_indexes, &new_indexes), rp0.rely_rel(), s1, 0, 0, ol, nl, rp0.rely_st());
+    /*@*/     lemma_run_fin::<Replace<Patience<Old, New, D>>>(rp0.rely_rel(), rp0.rely_st(), s1);
+    /*@*/     reveal(step_rel);
+    /*@*/     assert(rp.rely_st().ok && rp.rely_st().fin);
+    /*@*/     assert(rp.inv() && rp.rst().fin);
+    /*@*/     let pt = rp.inner();
+    /*@*/     assert(pt.rely_st().ok);
+    /*@*/     assert(pt.inv());
+    /*@*/     // the Patience hook has seen `finish`: its history is what Replace forwarded plus Finish
+    /*@*/     lemma_run_fin::<Patience<Old, New, D>>(rel_true(), pt.rst0(), sent::<Patience<Old, New, D>>(rp.em_()));
+    /*@*/     assert(pt.rst().fin);
+    /*@*/     assert(pt.done());
+    /*@*/ }
     Ok(())
 }
 //@@ end
